@@ -23,6 +23,17 @@ typedef unsigned __int128 u128;
 #define TB_CARRY(a) ((TB_M0(a) & 0x00800000u) != 0)
 #define TB_M(a) (TB_CARRY(a) ? TB_M0(a) >> 8 : TB_M0(a))
 #define TB_N(a) ((uint32_t)BYTELEN(a) + (TB_CARRY(a) ? 1u : 0u))
+/* the same definition with every sub-term evaluated once (the macro form repeats BYTELEN about sixty times in one
+ * postcondition, which costs the symbolic executor minutes): SPEC_TOBITS(a, negative) is the compact encoding */
+static inline uint32_t spec_toBits(const uint8_t* a, int negative) {
+  const unsigned n = BYTELEN(a);
+  const uint32_t m0 = n <= 3 ? ((uint32_t)W(a, 0)) << (8 * (3 - n))
+                             : ((uint32_t)a[n - 1] << 16 | (uint32_t)a[n - 2] << 8 | (uint32_t)a[n - 3]);
+  const int carry = (m0 & 0x00800000u) != 0;
+  const uint32_t m = carry ? m0 >> 8 : m0;
+  const uint32_t size = (uint32_t)n + (carry ? 1u : 0u);
+  return m | (size << 24) | ((negative != 0 && (m & 0x007fffffu) != 0) ? 0x00800000u : 0u);
+}
 #define CANON(c) ((c) == 0 || (((c)&0x00800000u) == 0 && (((c) >> 16) & 0x7fu) != 0 && ((c) >> 24) >= 1 && ((c) >> 24) <= 32 && \
                                (((c) >> 24) != 1 || ((c)&0xffffu) == 0) && (((c) >> 24) != 2 || ((c)&0xffu) == 0)))
 #define KEEP(x) ((BYTELEN(x) > 0 && ((x)[BYTELEN(x) - 1] & 0x80) != 0) ? 2 : 3)
